@@ -192,17 +192,28 @@ func bitCodeOpen(b orb.Bound, p orb.Point) int {
 func intersect(box orb.Bound, edge int, a, b orb.Point) orb.Point {
 	if edge&8 != 0 {
 		// top
-		return orb.Point{a[0] + (b[0]-a[0])*(box.Max[1]-a[1])/(b[1]-a[1]), box.Max[1]}
+		return orb.Point{lerp(a[0], b[0], (box.Max[1]-a[1])/(b[1]-a[1])), box.Max[1]}
 	} else if edge&4 != 0 {
 		// bottom
-		return orb.Point{a[0] + (b[0]-a[0])*(box.Min[1]-a[1])/(b[1]-a[1]), box.Min[1]}
+		return orb.Point{lerp(a[0], b[0], (box.Min[1]-a[1])/(b[1]-a[1])), box.Min[1]}
 	} else if edge&2 != 0 {
 		// right
-		return orb.Point{box.Max[0], a[1] + (b[1]-a[1])*(box.Max[0]-a[0])/(b[0]-a[0])}
+		return orb.Point{box.Max[0], lerp(a[1], b[1], (box.Max[0]-a[0])/(b[0]-a[0]))}
 	} else if edge&1 != 0 {
 		// left
-		return orb.Point{box.Min[0], a[1] + (b[1]-a[1])*(box.Min[0]-a[0])/(b[0]-a[0])}
+		return orb.Point{box.Min[0], lerp(a[1], b[1], (box.Min[0]-a[0])/(b[0]-a[0]))}
 	}
 
 	panic("no edge??")
+}
+
+// lerp interpolates between a and b. It is exact at both ends, i.e. a
+// segment end point lying on the bbox line is returned unchanged. The
+// clipping loop relies on that to terminate for points on the bbox corners.
+func lerp(a, b, t float64) float64 {
+	if t == 1 {
+		return b
+	}
+
+	return a + (b-a)*t
 }
